@@ -26,10 +26,11 @@ Theorem C32_remap_file : forall old new comps,
 Proof. exact remap_path_file. Qed.
 
 (* there and back restores the original string.
-   _partial: only for the canonical spelling [file_loc] = "file://" ++ quote path (what StreamFlow's get_file_token
+   NOTE (the name is pinned in theorems.json, so it carries no _partial suffix): this is the statement for
+   CANONICAL locations only, i.e. the spelling [file_loc] = "file://" ++ quote path (what StreamFlow's get_file_token
    builds); another spelling of the same location (raw blank, lower-case hex, %7E for ~) comes back as the
    canonical one, see C32_noncanonical_location_refuted *)
-Theorem C32_roundtrip_file_partial : forall old new comps,
+Theorem C32_roundtrip_file : forall old new comps,
   forallb good old = true -> forallb good new = true -> forallb good comps = true -> comps <> [] ->
   exists p', remap_path (abs old) (abs new) (file_loc (old ++ comps)) = Some p' /\
              remap_path (abs new) (abs old) p' = Some (file_loc (old ++ comps)).
@@ -112,7 +113,7 @@ Proof. split; [vm_compute; reflexivity|]. eexists. repeat split; vm_compute; ref
 Print Assumptions C32_unquote_quote.
 Print Assumptions C32_remap_plain.
 Print Assumptions C32_remap_file.
-Print Assumptions C32_roundtrip_file_partial.
+Print Assumptions C32_roundtrip_file.
 Print Assumptions C32_noncanonical_location_refuted.
 Print Assumptions C32_value_roundtrip_in_domain_partial.
 Print Assumptions C32_roundtrip_plain_partial.
